@@ -35,6 +35,8 @@ pub enum Instr
     FailIf { flag: String },
     FailOn { src: String, content: String },
     Nop { tag: String },
+    /// like FailIf, but on the real file system the shell ends in the given way: 0 `exit 3`, 1 SIGKILL, 2 SIGTERM, 3 SIGHUP
+    DieIf { flag: String, how: u8 },
 }
 
 impl Instr
@@ -60,6 +62,7 @@ impl Instr
             Instr::FailIf { flag } => format!("failif {}", flag),
             Instr::FailOn { src, content } => format!("failon {} {}", src, content),
             Instr::Nop { tag } => format!("nop {}", tag),
+            Instr::DieIf { flag, how } => format!("dieif {} {}", flag, how),
         }
     }
 
@@ -96,6 +99,7 @@ pub fn parse_line(line: &str) -> Result<Vec<Instr>, String>
             "failif" if chunk.len() == 2 => Instr::FailIf { flag: chunk[1].to_string() },
             "failon" if chunk.len() == 3 => Instr::FailOn { src: chunk[1].to_string(), content: chunk[2].to_string() },
             "nop" if chunk.len() == 2 => Instr::Nop { tag: chunk[1].to_string() },
+            "dieif" if chunk.len() == 3 => Instr::DieIf { flag: chunk[1].to_string(), how: chunk[2].parse().unwrap_or(0) },
             _ => return Err(format!("bad instruction {:?}", chunk)),
         };
         out.push(i);
@@ -164,6 +168,10 @@ pub fn run_line<F: CmdFs>(fs: &mut F, line: &str) -> (i32, String)
                 }
             }
             Instr::Nop { .. } => {}
+            Instr::DieIf { flag, how } =>
+            {
+                if fs.exists(&flag) { return (if how == 0 { 3 } else { 137 }, format!("flag {} present", flag)); }
+            }
         }
     }
     (0, String::new())
